@@ -23,23 +23,75 @@ func init() {
 }
 
 func pcacheWriters(c *Ctx) []*Fn {
-	// writer functions = those that publish a snapshot
+	// writer functions = those that mutate writer-side state or publish a snapshot
 	var out []*Fn
 	for _, f := range c.Funcs(pcachePkg) {
-		if len(c.Calls(f.SSA, Call("atomic.Pointer[pcache.readOnly]).Store[pcache.readOnly]"))) > 0 {
+		isW := len(c.Calls(f.SSA, Call("atomic.Pointer[pcache.readOnly]).Store[pcache.readOnly]"))) > 0
+		instrs(f.SSA, func(in ssa.Instruction) {
+			if what, _ := writerMutation(c, in); what != "" {
+				isW = true
+			}
+		})
+		if isW {
 			out = append(out, f)
 		}
 	}
 	return out
 }
 
-func isPublish(c *Ctx, in ssa.Instruction) bool {
+// alwaysPublishes: every path from fn's entry to a return passes the atomic
+// publication (directly or through another always-publishing helper).
+func alwaysPublishes(c *Ctx, fn *ssa.Function, depth int) bool {
+	if fn == nil || len(fn.Blocks) == 0 || depth > 2 {
+		return false
+	}
+	pub := func(b *ssa.BasicBlock) bool {
+		for _, in := range b.Instrs {
+			if isPublishD(c, in, depth) {
+				return true
+			}
+		}
+		return false
+	}
+	seen := map[*ssa.BasicBlock]bool{}
+	stack := []*ssa.BasicBlock{fn.Blocks[0]}
+	for len(stack) > 0 {
+		b := stack[len(stack)-1]
+		stack = stack[:len(stack)-1]
+		if seen[b] {
+			continue
+		}
+		seen[b] = true
+		if pub(b) {
+			continue
+		}
+		if _, ok := b.Instrs[len(b.Instrs)-1].(*ssa.Return); ok {
+			return false
+		}
+		stack = append(stack, b.Succs...)
+	}
+	return true
+}
+
+func isPublishD(c *Ctx, in ssa.Instruction, depth int) bool {
 	ci, ok := in.(ssa.CallInstruction)
 	if !ok {
 		return false
 	}
-	_, m := Match(Call("atomic.Pointer[pcache.readOnly]).Store[pcache.readOnly]", Field("read", Any())), c.CallX(ci))
-	return m
+	if _, m := Match(Call("atomic.Pointer[pcache.readOnly]).Store[pcache.readOnly]", Field("read", Any())), c.CallX(ci)); m {
+		return true
+	}
+	if _, isGo := in.(*ssa.Go); isGo {
+		return false
+	}
+	if sc := ci.Common().StaticCallee(); sc != nil && sc.Pkg != nil && in.Parent().Pkg == sc.Pkg && sc != in.Parent() {
+		return alwaysPublishes(c, sc, depth+1)
+	}
+	return false
+}
+
+func isPublish(c *Ctx, in ssa.Instruction) bool {
+	return isPublishD(c, in, 0)
 }
 
 // writerMutation classifies an instruction as a mutation of writer-side state.
@@ -80,7 +132,7 @@ func runC06(c *Ctx) {
 	c.Trust("go/ssa", "go/cfg lockset", "time.Time")
 	writers := pcacheWriters(c)
 	if len(writers) < 2 {
-		c.Unk("C06.P1-must-publish", "pcache writers", token.NoPos, "expected at least two functions publishing snapshots (refresh and miss-fetch)")
+		c.Unk("C06.P1-must-publish", "pcache writers", token.NoPos, "expected at least two functions mutating/publishing cache state (refresh and miss-fetch)")
 	}
 
 	// ---- P1 must-publish ---------------------------------------------------------
@@ -108,7 +160,7 @@ func runC06(c *Ctx) {
 			}
 		})
 	}
-	c.Floor("C06.P1-must-publish", 10)
+	c.Floor("C06.P1-must-publish", 6)
 
 	// ---- P2 newest wins ---------------------------------------------------------------
 	for _, w := range writers {
@@ -250,7 +302,14 @@ func runC06(c *Ctx) {
 					if _, ok := Match(Call("pcache.apiToCacheInfo"), c.E(mu.Value)); ok {
 						entered = true
 						// every publication is after this update
-						for _, cs := range c.Calls(w.SSA, Call("atomic.Pointer[pcache.readOnly]).Store[pcache.readOnly]")) {
+						var pubs []ssa.Instruction
+						instrs(w.SSA, func(o ssa.Instruction) {
+							if isPublish(c, o) {
+								pubs = append(pubs, o)
+							}
+						})
+						for _, pi := range pubs {
+							cs := struct{ In ssa.Instruction }{pi}
 							c.Check(Precedes(mu, cs.In), "C06.P4-miss-recorded", w.Name+" › entry before publish", cs.In.Pos(),
 								"the fetched (or negative) entry is in the update map before publication", "snapshot published before the missed provider's entry was added")
 						}
@@ -261,7 +320,7 @@ func runC06(c *Ctx) {
 		c.Check(inserted && entered, "C06.P4-miss-recorded", w.Name+" › entry recorded", w.SSA.Pos(),
 			"miss path records the provider in the write map and in the published update map", "miss path does not record the provider (repeated lookups would query the sources again)")
 	}
-	c.Floor("C06.P4-miss-recorded", 3)
+	c.Floor("C06.P4-miss-recorded", 2)
 
 	// ---- P5 / P6 shared with C07 ---------------------------------------------------------------
 	pcacheMergePrecedence(c, "C06.P5-merge-precedence")
@@ -340,20 +399,18 @@ func pcacheMergePrecedence(c *Ctx, rule string) {
 			if !ok {
 				return
 			}
-			mm, ok := mu.Map.(*ssa.MakeMap)
-			if !ok {
+			if _, ok := mu.Map.(*ssa.MakeMap); !ok {
 				return
 			}
 			v := c.E(mu.Value)
 			if v.Op != "phi" || len(v.Args) != 2 {
 				return
 			}
-			_ = mm
 			// one edge: lookup in a fresh map (updates); other: lookup in field m of the loaded snapshot
 			var upd, old *X
 			for _, a := range v.Args {
 				if b, ok := Match(Or(Extract("0", BindP("lk", Op("lookup", "", Bind("map")))), BindP("lk", Op("lookup", "", Bind("map")))), a); ok {
-					if b["map"].Op == "makemap" {
+					if isFreshMap(c, b["map"]) {
 						upd = b["lk"]
 					} else if b["map"].Op == "field" && b["map"].Name == "m" {
 						old = b["lk"]
@@ -372,7 +429,7 @@ func pcacheMergePrecedence(c *Ctx, rule string) {
 			c.Check(g, rule, key, mu.Pos(), "old main map consulted only on the miss edge of the pending-updates lookup", "old main map takes precedence over pending updates: a rebuilt snapshot reverts records readers already saw")
 		})
 	}
-	c.Floor(rule, 2)
+	c.Floor(rule, 1)
 }
 
 // pcacheLoadUnderToken: in writer functions the snapshot is loaded while the write token is held.
@@ -410,4 +467,22 @@ func pcacheLoadUnderToken(c *Ctx, rule string) {
 		}
 	}
 	c.Floor(rule, 3)
+}
+
+// isFreshMap: a map made in this function, or a parameter of a helper whose
+// every caller passes a map it made itself.
+func isFreshMap(c *Ctx, x *X) bool {
+	if x.Op == "makemap" {
+		return true
+	}
+	vals, _ := c.ActualsAt(x)
+	if len(vals) == 0 {
+		return false
+	}
+	for _, v := range vals {
+		if v.Op != "makemap" {
+			return false
+		}
+	}
+	return true
 }
